@@ -172,6 +172,18 @@ pub fn record_c04(args: &Args, mut out: Out) -> usize {
             let b = random_window(&mut rng, 40);
             scoped_event(cfg, refline, &[(a.0 .0, a.0 .1, a.1 .0, a.1 .1), (b.0 .0, b.0 .1, b.1 .0, b.1 .1)], &mut out);
         }
+        // ... also when the last call names the whole enumeration, the same window again, or an empty window
+        {
+            let full = (0u8, 1u8, 48u8, 49u8);
+            let w = |r: &mut Rng| { let a = random_window(r, 30); (a.0 .0, a.0 .1, a.1 .0, a.1 .1) };
+            let (a, b, c) = (w(&mut rng), w(&mut rng), w(&mut rng));
+            scoped_event(cfg, refline, &[a, full], &mut out);
+            scoped_event(cfg, refline, &[(10, 43, 14, 18), b, full], &mut out);
+            scoped_event(cfg, refline, &[full, c], &mut out);
+            scoped_event(cfg, refline, &[c, c], &mut out);
+            scoped_event(cfg, refline, &[a, (b.0, b.1, b.0, b.1)], &mut out);
+            scoped_event(cfg, refline, &[(c.0, c.1, c.0, c.1), a], &mut out);
+        }
         // chains of 2..16 cuts from (0,1) to (48,49)
         for _ in 0..(if thorough { 40 } else { 12 }) {
             let k = 1 + rng.usize(16);
